@@ -9,6 +9,8 @@ import Driver.Frame
 import Driver.H2SM
 import Driver.Pass
 import Driver.DBuf
+import Driver.H2Rx
+import Driver.H2Tx
 import FpVerif.Spec.JA3
 import FpVerif.Spec.Capture
 import FpVerif.Spec.H2Fp
@@ -296,6 +298,8 @@ def handle (cmd : String) (args : List String) : String :=
   | "e2e", toks => (e2eExpected toks).getD "bad-op"
   | "pass", toks => (passExpected toks).getD "bad-op"
   | "dbuf", toks => (dbufRun toks).getD "bad-op"
+  | "h2rx", toks => (h2rxRun toks).getD "bad-op"
+  | "h2tx", toks => (h2txRun toks).getD "bad-op"
   | "rw", toks => (rwModel toks).getD "bad-op"
   | "rwspec05", toks => (rwSpec05 toks).getD "bad-op"
   | "rwspec09", toks => (rwSpec09 toks).getD "bad-op"
